@@ -11,6 +11,7 @@ import (
 	ipfslog "berty.tech/go-ipfs-log"
 	"berty.tech/go-ipfs-log/entry"
 	idp "berty.tech/go-ipfs-log/identityprovider"
+	logio "berty.tech/go-ipfs-log/io"
 	"berty.tech/go-orbit-db/accesscontroller"
 	acorbit "berty.tech/go-orbit-db/accesscontroller/orbitdb"
 	"berty.tech/go-orbit-db/accesscontroller/simple"
@@ -19,6 +20,7 @@ import (
 	"berty.tech/go-orbit-db/stores/documentstore"
 	"berty.tech/go-orbit-db/stores/eventlogstore"
 	"berty.tech/go-orbit-db/stores/kvstore"
+	orbitutils "berty.tech/go-orbit-db/utils"
 	cid "github.com/ipfs/go-cid"
 	ds "github.com/ipfs/go-datastore"
 	dsync "github.com/ipfs/go-datastore/sync"
@@ -82,8 +84,72 @@ func c03Cases(tier string, seed int64) []fw.Case {
 				}
 			}
 		}
+		// databases whose access-controller blocks were published by hand (or by another implementation):
+		// the stored write list is taken as it is
+		for _, stored := range []string{"empty", "other", "wildcard"} {
+			for _, typ := range storeTypes {
+				out = append(out, fw.Case{Idx: idx, Seed: rng.Int63(), Kind: "published", P: map[string]interface{}{"stored": stored, "type": typ, "rep": rep}})
+				idx++
+			}
+		}
 	}
 	return out
+}
+
+// c03Published opens a database whose write list block was published as given and checks that the
+// opener, who is not in it, cannot write (and can under the wildcard).
+func c03Published(c fw.Case) fw.Verdict {
+	e := NewEnv()
+	defer e.Close()
+	v := fw.Verdict{}
+	stored, typ := c.Str("stored", "empty"), c.Str("type", tEvent)
+	v.Sig = fw.HashSig("published", stored, typ)
+	P, err := e.W.AddPeer(sim.PeerOpts{})
+	if err != nil {
+		return fw.Verdict{Status: fw.Inconclusive, What: err.Error()}
+	}
+	other := "02aaaaaaaaaaaaaaaaaaaaaaaaaaaaaaaaaaaaaaaaaaaaaaaaaaaaaaaaaaaaaaaa"
+	listJSON := map[string]string{"empty": `[]`, "other": `["` + other + `"]`, "wildcard": `["*"]`}[stored]
+	listCid, err := logio.WriteCBOR(bg, P.API, map[string]interface{}{"write": listJSON}, nil)
+	if err != nil {
+		return fw.Verdict{Status: fw.Inconclusive, What: "publish list: " + err.Error()}
+	}
+	acCid, err := accesscontroller.CreateManifest(bg, P.API, "ipfs", accesscontroller.NewManifestParams(listCid, false, "ipfs"))
+	if err != nil {
+		return fw.Verdict{Status: fw.Inconclusive, What: "publish controller manifest: " + err.Error()}
+	}
+	name := "published-" + stored
+	dbCid, err := orbitutils.CreateDBManifest(bg, P.API, name, typ, acCid.String())
+	if err != nil {
+		return fw.Verdict{Status: fw.Inconclusive, What: "publish database manifest: " + err.Error()}
+	}
+	addr := "/orbitdb/" + dbCid.String() + "/" + name
+	ctx, cancel := context.WithTimeout(bg, 30*time.Second)
+	defer cancel()
+	s, err := P.DB.Open(ctx, addr, &iface.CreateDBOptions{})
+	if err != nil {
+		return fw.Verdict{Status: fw.Inconclusive, What: "open: " + err.Error()}
+	}
+	P.Track(s)
+	got, _ := s.AccessController().GetAuthorizedByRole("write")
+	_, werr := ApplyOp(bg, s, honestOp(typ, 1))
+	e.W.Settle()
+	v.Count("published_write_list_checks", 1)
+	v.NonTrivial = true
+	switch stored {
+	case "wildcard":
+		if werr != nil {
+			return fw.Verdict{Status: fw.Violated, Key: "published-list/wildcard-refused", NonTrivial: true, Sig: v.Sig, What: "a database published with the write list [*] refuses the opener's write: " + werr.Error()}
+		}
+	default:
+		if werr == nil || s.OpLog().Len() != 0 {
+			return fw.Verdict{Status: fw.Violated, Key: "local-write-by-non-writer-accepted/published-" + stored, NonTrivial: true, Sig: v.Sig,
+				What: fmt.Sprintf("a database whose stored write list is %s was opened by a peer that is not in it; the store reports the write list %v and the peer's write was accepted (log length %d)", listJSON, got, s.OpLog().Len())}
+		}
+	}
+	v.Status = fw.Held
+	v.Sample = map[string]interface{}{"route": "published", "stored_list": listJSON, "type": typ, "reported_list": got}
+	return v
 }
 
 // buildStore constructs a store with the public constructor and the given
@@ -124,6 +190,9 @@ type c03World struct {
 }
 
 func c03Run(c fw.Case) fw.Verdict {
+	if c.Kind == "published" {
+		return c03Published(c)
+	}
 	e := NewEnv()
 	defer e.Close()
 	v := fw.Verdict{}
